@@ -12,7 +12,7 @@ from mcverif import build
 # ---------------------------------------------------------------------------------------------
 # initial states (pure JSON: family name + options; the spec is regenerated from them)
 
-FAMILIES = ("hex3pins", "hexfullcu", "cartq", "cartfull", "trz")
+FAMILIES = ("hex3pins", "hexfullcu", "cartq", "cartfull", "trz", "hexmany")
 
 
 def spec_of(init):
@@ -30,6 +30,27 @@ def spec_of(init):
     elif fam == "hexfullcu":
         # two pool assemblies: an even-sized pool grid is not through-centre, i.e. has an offset
         s = build.hex_spec(third=False, cornersUp=True, sfp_contents={(0, 0): "IC", (1, 0): "OC"})
+    elif fam == "hexmany":
+        # Crosses the one-digit/two-digit boundary of everything the layout numbers or names from
+        # integers: 12 assemblies of 12 designs with 12 different block-height vectors (12 distinct
+        # axial grids + core + pool + blueprint pin grid + automatic pin grids > 10 stored grids),
+        # and one assembly of 11 blocks (block indices / names ...-010).
+        cells = build.full_core_cells(3)[:12]
+        s = build.hex_spec(third=False, pins=True, cells=cells, two_designs=False, sfp_contents={(0, 0): "D03", (1, 0): "D11"})
+        s["blocks"]["fuel2"] = build.fuel_block()  # no blueprint lattice: gets an automatic pin grid
+        assemblies, contents = {}, {}
+        for i, c in enumerate(cells):
+            sp = "D%02d" % i
+            if i == 11:
+                stack, heights = ["fuel2"] * 10 + ["plenum"], [3.0] * 10 + [25.0]
+            else:
+                stack, heights = ["fuel" if i % 2 == 0 else "fuel2", "plenum"], [25.0 + i, 30.0 - i]
+            n = len(stack)
+            mm = {"U235_wt_frac": [0.11 + 0.005 * i if k < n - 1 else "" for k in range(n)], "ZR_wt_frac": [0.06 if k < n - 1 else "" for k in range(n)]}
+            assemblies["design %02d" % i] = build.assem(sp, stack, heights, ["A"] * (n - 1) + ["B"], mm)
+            contents[tuple(c)] = sp
+        s["assemblies"] = assemblies
+        s["grids"]["core"]["contents"] = contents
     elif fam == "cartq":
         # "quarter reflective" (not through the centre assembly): the core grid has an offset
         s = build.cart_spec(quarter=True, through_center=False)
@@ -68,13 +89,16 @@ def trz_text():
     return txt.replace(marker, marker + "        grid bounds:\n            r: %s\n            theta: %s\n" % (rr, th))
 
 
-def settings():
+def settings(init=None):
+    if init and init["family"] == "hexmany":
+        # assemblies with different axial meshes need the non-uniform ("detailed") axial treatment
+        return build.settings(trackAssems=True, detailedAxialExpansion=True)
     return build.settings(trackAssems=True)
 
 
 def build_state(init):
     """-> (reactor, cs, bp, targets)"""
-    cs = settings()
+    cs = settings(init)
     if init["family"] == "trz":
         import io
         import random
